@@ -111,6 +111,10 @@ fn main() {
         }
         ("C09", None) => checks::c09::run(&ctx),
         ("C09", Some(r)) => checks::c09::replay(&ctx, &r["case"]),
+        ("C18CDBG", _) => {
+            checks::c18c::debug(&args);
+            std::process::exit(0);
+        }
         ("C18DBG", _) => {
             checks::c18::debug(&args);
             std::process::exit(0);
